@@ -11,6 +11,8 @@ KINDS = {
     # kind -> (Interval, Ticks): the counter declaration passes 100 ms to auto_flush_from!, the histogram one uses the default (1000 ms)
     "counter": (100, [60, 100]),
     "hist": (1000, [600, 1000]),
+    # a FLOAT counter declaration driven with amounts of v * 2^-60 (all far below f64::EPSILON, sums exact); same model as "counter"
+    "fcounter": (100, [60, 100]),
 }
 THREADS = ["t1", "t2"]
 LEAVES = ["a", "b"]
@@ -19,7 +21,7 @@ LEAVES = ["a", "b"]
 def consts(kind):
     iv, ticks = KINDS[kind]
     return ("  Threads = {%s}\n  Leaves = {%s}\n  Kind = %s\n  Interval = %d\n  Ticks = {%s}\n  Amounts = {1, 2}\n" %
-            (", ".join(map(tla_str, THREADS)), ", ".join(map(tla_str, LEAVES)), tla_str(kind), iv, ", ".join(map(str, ticks))))
+            (", ".join(map(tla_str, THREADS)), ", ".join(map(tla_str, LEAVES)), tla_str("counter" if kind == "fcounter" else kind), iv, ", ".join(map(str, ticks))))
 
 
 def af_exe(exe):
@@ -149,7 +151,7 @@ def arbitrate(ctx, kind, suspects, stats, label="arb"):
 def run(ctx, exe):
     quick = ctx.quick
     stats = {"af_model_states": 0, "af_behaviours": 0, "af_conforming": 0, "af_events": 0}
-    for kind in ("counter", "hist"):
+    for kind in ("counter", "hist", "fcounter"):
         iv, ticks = KINDS[kind]
         # 1. the design: invariants and action properties, exhaustively within a bound
         mc = "---- MODULE MCAutoFlush ----\nEXTENDS AutoFlush\nBound == clock <= %d /\\ \\A l \\in Leaves : added[l].n <= %d\n====\n" % (2 * iv, 1 if quick else 2)
